@@ -126,12 +126,21 @@ def search(ctx, budget):
         ctx.note("exhaustive", True)
     # (2) batch = single on windows, determinism
     nwin = 120 if not full else 5000
-    for _ in range(nwin):
+    ROUND = [2 ** p_ for p_ in range(8, 20)] + [m_ * 10 ** p_ for p_ in range(2, 6) for m_ in (1, 2, 5)] + [10 ** 6 - 300]
+    for iw in range(nwin):
         s = rng.randint(1, 10**6) if rng.random() < 0.5 else rng.randint(1, 5000)
         k = rng.choice([rng.randint(0, 256 if full else 24), rng.randint(0, 24), 256])
         d = rng.choice([1, 2, 3, 5, 11, 64, 200]) if rng.random() < 0.9 else 1000
         if s > 20000 and (d > 11 or k > 8):
             d, k = min(d, 5), min(k, 8)
+        if iw < 2 * len(ROUND) or rng.random() < 0.2:
+            # windows that straddle a round seed number (powers of two and 1-2-5 x powers of ten: natural sizes for tables and blocks):
+            # each of them once in a low and once in a higher dimension, then at random
+            R = ROUND[iw % len(ROUND)] if iw < 2 * len(ROUND) else rng.choice(ROUND)
+            if iw < 2 * len(ROUND):
+                d = rng.choice([1, 2, 3, 5]) if iw < len(ROUND) else rng.choice([9, 11, 16, 40])
+            k = min(max(k, 2), 8)
+            s = max(1, R - rng.randint(0, k - 1))          # s <= R < s + k
         ctx.case({"window": [s, s + k, d]}, nontrivial=s > 1)
         B = quasirandom_sobol_batch(s, s + k, d)
         B2 = quasirandom_sobol_batch(s, s + k, d)
@@ -149,6 +158,19 @@ def search(ctx, budget):
                 ctx.fail("C20:batch-vs-single:sobol", f"quasirandom_sobol({s + i},{d}) != row {i} of quasirandom_sobol_batch({s},{s + k},{d})",
                          {"kind": "window", "s": s, "k": k, "d": d})
                 break
+        # results belong to the caller: scribbling over them must not change what the generators return next
+        keepB, keepS = B.copy(), np.array(quasirandom_sobol(s, d), copy=True)
+        S0 = quasirandom_sobol(s, d)
+        S0 *= 2.0
+        B *= -1.0
+        f1 = quasirandom(d, method="sobol", seed=s)
+        keepf = np.array(f1, copy=True)
+        f1 -= 5.0
+        if not (np.array_equal(quasirandom_sobol(s, d), keepS) and np.array_equal(quasirandom_sobol_batch(s, s + k, d), keepB)
+                and np.array_equal(quasirandom(d, method="sobol", seed=s), keepf) and np.array_equal(keepf, keepS)):
+            ctx.fail("C20:determinism", f"Sobol generators for seed {s}, dimension {d} return other values after a previously returned array was modified in place",
+                     {"kind": "window", "s": s, "k": k, "d": d})
+        B = keepB
         try:
             F = quasirandom(k + 1, d, method="sobol", seed=s)
         except BaseException as ex:  # noqa  (a wrong seed window can ask for an absurd allocation)
@@ -172,6 +194,11 @@ def search(ctx, budget):
             if not np.array_equal(quasirandom_kgf(s + i, d), B[i]):
                 ctx.fail("C20:batch-vs-single:kgf", f"quasirandom_kgf({s + i},{d}) != row {i} of quasirandom_kgf_batch({s},{s + k},{d})", {"kind": "kgf", "s": s, "k": k, "d": d})
                 break
+        g1 = quasirandom(d, method="kgf", seed=s)
+        keepg = np.array(g1, copy=True)
+        g1 *= 3.0
+        if not np.array_equal(quasirandom(d, method="kgf", seed=s), keepg):
+            ctx.fail("C20:determinism", f"quasirandom({d}, method='kgf', seed={s}) returns other values after its previous result was modified in place", {"kind": "kgf", "s": s, "k": k, "d": d})
         try:
             okf = np.array_equal(quasirandom(k + 1, d, method="kgf", seed=s), B) and np.array_equal(quasirandom(d, method="kgf", seed=s), quasirandom_kgf(s, d))
         except BaseException:  # noqa
